@@ -128,3 +128,194 @@ Proof.
   apply is_pseries_odd_even; apply is_pseries_R; [exact even_part | exact Ho].
 Qed.
 End Entry.
+
+(* ===================================================================================================================
+   se(3): trexp on a unit twist S = (v, w), |w| = 1, equals the exponential series of theta [S] (4x4), entry by entry.
+   [S]^k = [[K^k, K^(k-1) v], [0, 0]] for k >= 1, so the rotation block is the so(3) series above and the translation
+   column is   Sum_{k>=1} theta^k/k! K^(k-1) v = (theta I + (1 - cos theta) K + (theta - sin theta) K^2) v = Vmat v.
+   =================================================================================================================== *)
+Ltac req := match goal with |- ?a = ?b => change (@eq R a b) end.
+
+Fixpoint mpow44 (A : M44 R) (k : nat) : M44 R :=
+  match k with O => I44 Rops | S k' => mmul44 Rops A (mpow44 A k') end.
+Definition expm_coeff44 (A : M44 R) (i j k : nat) : R := e44 (mpow44 A k) i j / INR (fact k).
+Definition e3 (p : V3 R) (i : nat) : R := let '(p0,p1,p2) := p in match i with 0%nat => p0 | 1%nat => p1 | _ => p2 end.
+
+Lemma hat_mul_Ab v0 v1 v2 w0 w1 w2 (M : M33 R) (p : V3 R) :
+  mmul44 Rops (se3_hat (v0,v1,v2,w0,w1,w2)) (Ab2M Rops M p) =
+  Ab2M Rops (mmul33 Rops (skew3 Rops (w0,w1,w2)) M) (mv33 Rops (skew3 Rops (w0,w1,w2)) p).
+Proof.
+  destruct M as [[[[a00 a01] a02] [[a10 a11] a12]] [[a20 a21] a22]]. destruct p as [[p0 p1] p2].
+  unfold se3_hat. c03_simpl. tuple_eq ltac:(ring).
+Qed.
+
+Lemma mv33_mmul (A B : M33 R) (x : V3 R) : mv33 Rops (mmul33 Rops A B) x = mv33 Rops A (mv33 Rops B x).
+Proof. lin_ring. Qed.
+Lemma mv33_I (x : V3 R) : mv33 Rops (I33 Rops) x = x.
+Proof. lin_ring. Qed.
+Lemma mmul33_I_r (A : M33 R) : mmul33 Rops A (I33 Rops) = A.
+Proof. lin_ring. Qed.
+
+Lemma mpow44_hat v0 v1 v2 w0 w1 w2 k :
+  mpow44 (se3_hat (v0,v1,v2,w0,w1,w2)) (S k) =
+  Ab2M Rops (mpow33 (skew3 Rops (w0,w1,w2)) (S k)) (mv33 Rops (mpow33 (skew3 Rops (w0,w1,w2)) k) (v0,v1,v2)).
+Proof.
+  induction k as [|k IH].
+  - cbn [mpow44 mpow33]. rewrite mmul33_I_r, mv33_I. unfold se3_hat. c03_simpl. tuple_eq ltac:(ring).
+  - change (mpow44 ?A (S (S k))) with (mmul44 Rops A (mpow44 A (S k))). rewrite IH, hat_mul_Ab.
+    f_equal. cbn [mpow33]. rewrite mv33_mmul. reflexivity.
+Qed.
+
+Lemma e3_mv_mscale (c : R) (A : M33 R) (x : V3 R) i : e3 (mv33 Rops (mscale33 Rops c A) x) i = c * e3 (mv33 Rops A x) i.
+Proof.
+  destruct A as [[[[a00 a01] a02] [[a10 a11] a12]] [[a20 a21] a22]]. destruct x as [[x0 x1] x2]. c03_simpl.
+  destruct i as [|[|i]]; cbn [e3]; ring.
+Qed.
+
+Lemma e44_Ab2M_rot (M : M33 R) (p : V3 R) i j : (i < 3)%nat -> (j < 3)%nat -> e44 (Ab2M Rops M p) i j = e33 M i j.
+Proof.
+  intros Hi Hj. destruct M as [[[[a00 a01] a02] [[a10 a11] a12]] [[a20 a21] a22]]. destruct p as [[p0 p1] p2]. c03_simpl.
+  destruct i as [|[|[|i]]]; try lia; destruct j as [|[|[|j]]]; try lia; reflexivity.
+Qed.
+Lemma e44_Ab2M_col (M : M33 R) (p : V3 R) i : (i < 3)%nat -> e44 (Ab2M Rops M p) i 3 = e3 p i.
+Proof.
+  intros Hi. destruct M as [[[[a00 a01] a02] [[a10 a11] a12]] [[a20 a21] a22]]. destruct p as [[p0 p1] p2]. c03_simpl.
+  destruct i as [|[|[|i]]]; try lia; reflexivity.
+Qed.
+Lemma e44_Ab2M_last (M : M33 R) (p : V3 R) j : e44 (Ab2M Rops M p) 3 j = 0.
+Proof.
+  destruct M as [[[[a00 a01] a02] [[a10 a11] a12]] [[a20 a21] a22]]. destruct p as [[p0 p1] p2]. c03_simpl.
+  destruct j as [|[|[|j]]]; reflexivity.
+Qed.
+
+(* generic shapes: c0 at n = 0 plus (-d) times the cos / sin coefficients *)
+Lemma series_cos_shape (th c0 d : R) (f : nat -> R) :
+  f 0%nat = c0 -> (forall m, f (S m) = - d * cos_n (S m)) ->
+  is_series (fun n => f n * (th ^ 2) ^ n) (c0 + d * (1 - cos th)).
+Proof.
+  intros H0 HS. replace (c0 + d * (1 - cos th)) with ((c0 + d) + (- d) * cos th) by ring.
+  apply is_series_ext with (fun n => plus (match n with O => c0 + d | S _ => 0 end) (scal (- d) (cos_n n * (th ^ 2) ^ n))).
+  - intro n. symmetry. transitivity ((match n with O => c0 + d | S _ => 0 end) + (- d) * (cos_n n * (th ^ 2) ^ n)); [|reflexivity].
+    destruct n as [|m]; [rewrite H0; unfold cos_n; req; simpl; field | rewrite HS; req; ring].
+  - apply (is_series_plus _ _ (c0 + d) ((- d) * cos th)); [apply is_series_at0|].
+    apply (is_series_scal (- d) _ (cos th)). apply cos_series.
+Qed.
+
+Lemma series_sin_shape (th c0 d : R) (f : nat -> R) :
+  f 0%nat = c0 -> (forall m, f (S m) = - d * sin_n (S m)) ->
+  exists a, is_series (fun n => f n * (th ^ 2) ^ n) (c0 + d - d * a) /\ sin th = th * a.
+Proof.
+  intros H0 HS. destruct (sin_series th) as [a [Ha Hs]]. exists a. split; [|exact Hs].
+  replace (c0 + d - d * a) with ((c0 + d) + (- d) * a) by ring.
+  apply is_series_ext with (fun n => plus (match n with O => c0 + d | S _ => 0 end) (scal (- d) (sin_n n * (th ^ 2) ^ n))).
+  - intro n. symmetry. transitivity ((match n with O => c0 + d | S _ => 0 end) + (- d) * (sin_n n * (th ^ 2) ^ n)); [|reflexivity].
+    destruct n as [|m]; [rewrite H0; unfold sin_n; req; simpl; field | rewrite HS; req; ring].
+  - apply (is_series_plus _ _ (c0 + d) ((- d) * a)); [apply is_series_at0|].
+    apply (is_series_scal (- d) _ a). exact Ha.
+Qed.
+
+Section SE3series.
+Variables (Kt : thr) (v0 v1 v2 w0 w1 w2 th : R).
+Let tw : V6 R := (v0,v1,v2,w0,w1,w2).
+Let w : V3 R := (w0,w1,w2).
+Let v : V3 R := (v0,v1,v2).
+Let K := skew3 Rops w.
+Let K2 := mmul33 Rops K K.
+Hypothesis HK : thr_ok Kt.
+Hypothesis Hw : normsq3 Rops w = 1.
+
+(* translation column, row i < 3 *)
+Lemma col_even i : (i < 3)%nat ->
+  is_series (fun n => expm_coeff44 (se3_hat tw) i 3 (2 * n) * (th ^ 2) ^ n) (0 + e3 (mv33 Rops K v) i * (1 - cos th)).
+Proof.
+  intros Hi. apply series_cos_shape.
+  - unfold expm_coeff44. cbn [Nat.mul mpow44 fact]. unfold I44. sm_simpl.
+    destruct i as [|[|[|i]]]; try lia; cbn [e44]; simpl; field.
+  - intro m. unfold expm_coeff44, tw. replace (2 * S m)%nat with (S (2 * m + 1)) by lia. rewrite mpow44_hat.
+    rewrite (e44_Ab2M_col _ _ i Hi). destruct (mpow_skew_parity w Hw m) as [Ho _]. fold w. rewrite Ho. fold K v.
+    rewrite e3_mv_mscale. unfold cos_n. replace (S (2 * m + 1)) with (2 * S m)%nat by lia.
+    assert (Hf : INR (fact (2 * S m)) <> 0) by apply INR_fact_neq_0.
+    change ((-1) ^ S m) with (-1 * (-1) ^ m).
+    generalize dependent (INR (fact (2 * S m))). generalize ((-1) ^ m) (e3 (mv33 Rops K v) i). intros r1 r2 r3 Hr3. req. field. exact Hr3.
+Qed.
+
+Lemma col_odd i : (i < 3)%nat -> exists a,
+  is_series (fun n => expm_coeff44 (se3_hat tw) i 3 (2 * n + 1) * (th ^ 2) ^ n) (e3 v i + e3 (mv33 Rops K2 v) i - e3 (mv33 Rops K2 v) i * a)
+  /\ sin th = th * a.
+Proof.
+  intros Hi. apply series_sin_shape.
+  - unfold expm_coeff44, tw. cbn [Nat.mul Nat.add]. rewrite mpow44_hat. rewrite (e44_Ab2M_col _ _ i Hi). cbn [mpow33]. rewrite mv33_I.
+    fold v. simpl. field.
+  - intro m. unfold expm_coeff44, tw. replace (2 * S m + 1)%nat with (S (2 * m + 2)) by lia. rewrite mpow44_hat.
+    rewrite (e44_Ab2M_col _ _ i Hi). destruct (mpow_skew_parity w Hw m) as [_ He]. fold w. rewrite He. fold K K2 v.
+    rewrite e3_mv_mscale. unfold sin_n. replace (S (2 * m + 2)) with (2 * S m + 1)%nat by lia.
+    assert (Hf : INR (fact (2 * S m + 1)) <> 0) by apply INR_fact_neq_0.
+    change ((-1) ^ S m) with (-1 * (-1) ^ m).
+    generalize dependent (INR (fact (2 * S m + 1))). generalize ((-1) ^ m) (e3 (mv33 Rops K2 v) i). intros r1 r2 r3 Hr3. req. field. exact Hr3.
+Qed.
+
+Lemma e3_Vmat_v i : (i < 3)%nat ->
+  e3 (mv33 Rops (Vmat Rops w th) v) i = th * e3 v i + (1 - cos th) * e3 (mv33 Rops K v) i + (th - sin th) * e3 (mv33 Rops K2 v) i.
+Proof.
+  intros Hi. unfold K2, K, v, w, Vmat. cbn [cos_ sin_ Rops]. generalize (cos th) (sin th). intros c s. c03_simpl.
+  destruct i as [|[|[|i]]]; try lia; cbn [e3]; ring.
+Qed.
+
+Lemma e44_trexp_unit_rot i j : (i < 3)%nat -> (j < 3)%nat -> e44 (trexp_unit Rops Kt tw th) i j = e33 (rodrigues_th Rops w th) i j.
+Proof.
+  intros Hi Hj. unfold tw, trexp_unit. rewrite rodrigues3_with_unit by assumption. fold w.
+  destruct (rodrigues_th Rops w th) as [[[[a00 a01] a02] [[a10 a11] a12]] [[a20 a21] a22]].
+  destruct (mv33 Rops (Vmat Rops (w0, w1, w2) th) (v0, v1, v2)) as [[p0 p1] p2]. c03_simpl.
+  destruct i as [|[|[|i]]]; try lia; destruct j as [|[|[|j]]]; try lia; reflexivity.
+Qed.
+
+(* rotation block: the 4x4 coefficients are the 3x3 ones *)
+Lemma coeff44_rot i j k : (i < 3)%nat -> (j < 3)%nat -> expm_coeff44 (se3_hat tw) i j k = expm_coeff K i j k.
+Proof.
+  intros Hi Hj. unfold expm_coeff44, expm_coeff, tw. destruct k as [|k].
+  - cbn [mpow44 mpow33]. unfold I44, I33. sm_simpl.
+    destruct i as [|[|[|i]]]; try lia; destruct j as [|[|[|j]]]; try lia; reflexivity.
+  - rewrite mpow44_hat. rewrite (e44_Ab2M_rot _ _ i j Hi Hj). reflexivity.
+Qed.
+
+Lemma e44_trexp_unit_col i : (i < 3)%nat -> e44 (trexp_unit Rops Kt tw th) i 3 = e3 (mv33 Rops (Vmat Rops w th) v) i.
+Proof.
+  intros Hi. unfold tw, trexp_unit. fold w v.
+  destruct (rodrigues3_with Rops Kt w th) as [[[[a00 a01] a02] [[a10 a11] a12]] [[a20 a21] a22]].
+  destruct (mv33 Rops (Vmat Rops w th) v) as [[p0 p1] p2]. c03_simpl.
+  destruct i as [|[|[|i]]]; try lia; reflexivity.
+Qed.
+
+Lemma e44_trexp_unit_last j : e44 (trexp_unit Rops Kt tw th) 3 j = e44 (I44 Rops) 3 j.
+Proof.
+  unfold tw, trexp_unit.
+  destruct (rodrigues3_with Rops Kt (w0, w1, w2) th) as [[[[a00 a01] a02] [[a10 a11] a12]] [[a20 a21] a22]].
+  destruct (mv33 Rops (Vmat Rops (w0, w1, w2) th) (v0, v1, v2)) as [[p0 p1] p2]. c03_simpl.
+  destruct j as [|[|[|j]]]; reflexivity.
+Qed.
+
+Theorem trexp_unit_is_expm_series i j : (i < 4)%nat -> (j < 4)%nat ->
+  is_pseries (expm_coeff44 (se3_hat tw) i j) th (e44 (trexp_unit Rops Kt tw th) i j).
+Proof.
+  intros Hi Hj.
+  destruct (Nat.eq_dec i 3) as [-> | Hi3].
+  - (* last row: only the k = 0 term *)
+    rewrite e44_trexp_unit_last. apply is_pseries_R.
+    apply is_series_ext with (fun n => match n with O => e44 (I44 Rops) 3 j | S _ => 0 end); [|apply is_series_at0].
+    intros [|k]; unfold expm_coeff44.
+    + cbn [mpow44 fact pow]. req. simpl. field.
+    + unfold tw. rewrite mpow44_hat, e44_Ab2M_last. req. unfold Rdiv. ring.
+  - assert (Hi' : (i < 3)%nat) by lia. destruct (Nat.eq_dec j 3) as [-> | Hj3].
+    + (* translation column *)
+      rewrite (e44_trexp_unit_col i Hi'), (e3_Vmat_v i Hi').
+      destruct (col_odd i Hi') as [a [Ho Hs]].
+      replace (th * e3 v i + (1 - cos th) * e3 (mv33 Rops K v) i + (th - sin th) * e3 (mv33 Rops K2 v) i)
+        with ((0 + e3 (mv33 Rops K v) i * (1 - cos th)) + th * (e3 v i + e3 (mv33 Rops K2 v) i - e3 (mv33 Rops K2 v) i * a))
+        by (rewrite Hs; ring).
+      apply is_pseries_odd_even; apply is_pseries_R; [exact (col_even i Hi') | exact Ho].
+    + (* rotation block *)
+      assert (Hj' : (j < 3)%nat) by lia. rewrite (e44_trexp_unit_rot i j Hi' Hj').
+      apply is_pseries_ext with (expm_coeff K i j); [intro k; symmetry; apply coeff44_rot; assumption|].
+      exact (rodrigues_is_expm_series w th i j Hw Hi' Hj').
+Qed.
+End SE3series.
